@@ -111,6 +111,16 @@ M = [
       old="__FROM_PATCH__", new="", expect="c16.precguard|uint::boxed::encoding::<impl uint::boxed::BoxedUint>::from_le_slice", patch="/verif/seeded/C16c/patch.diff"),
  dict(name="int_gcd_vartime_raw_bits", prop="C15", file="src/int/gcd.rs",
       old="__FROM_PATCH__", new="", expect="c15.sibling|int::gcd::<impl traits::Gcd for int::Int<_>>::gcd_vartime", patch="/verif/seeded/C15c/patch.diff"),
+ # --- C19
+ dict(name="random_mod_core_polarity", prop="C19", file="src/uint/rand.rs",
+      old="        if n.ct_lt(modulus).into() {\n            break;", new="        if !bool::from(n.ct_lt(modulus)) {\n            break;",
+      expect="c19.reject|uint::rand::random_mod_core"),
+ dict(name="limb_random_mod_swapped", prop="C19", file="src/limb/rand.rs",
+      old="            if n.ct_lt(modulus).into() {", new="            if modulus.ct_lt(&n).into() {",
+      expect="c19.reject|limb::rand::<impl traits::RandomMod for limb::Limb>::try_random_mod"),
+ dict(name="boxed_random_bits_no_length_check", prop="C19", file="src/uint/boxed/rand.rs",
+      old="        if bit_length > bits_precision {\n            return Err(RandomBitsError::BitLengthTooLarge {\n                bit_length,\n                bits_precision,\n            });\n        }\n\n", new="",
+      expect="c19.bitguard|uint::boxed::rand::<impl traits::RandomBits for uint::boxed::BoxedUint>::try_random_bits_with_precision"),
  # --- C18
  dict(name="der_saturating_sub", prop="C18", file="src/uint/encoding/der.rs",
       old="        let offset = array\n            .len()\n            .checked_sub(bytes.len().try_into()?)\n            .ok_or(Tag::Integer.length_error())?;\n",
